@@ -19,3 +19,4 @@ def rules(ctx):
     S.c06_r4_rebuild(ctx)
     S.c06_r5_tracking(ctx)
     S.c06_r6_restore(ctx)
+    S.walker_rules(ctx)
